@@ -514,6 +514,10 @@ pub fn exec_event(w: &mut WorldRt, ev: &Event) -> String {
         }
         Event::Report { i, .. } => {
             let Some(u) = w.insts.remove(i) else { return "bad-event".into() };
+            // `impl Termination for Unimock` exists with the `std` feature only (configuration B is built without it)
+            #[cfg(verif_nostd)]
+            { drop(u); "bad-event".into() }
+            #[cfg(not(verif_nostd))]
             match catch(move || std::process::Termination::report(u)) {
                 Caught::Ok(code) => {
                     let failure = format!("{code:?}") != format!("{:?}", std::process::ExitCode::SUCCESS);
